@@ -172,8 +172,9 @@ class C01(CheckBase):
         for i, (h, t, rw) in enumerate(m.sess):
             if m.login[t] == PUBLIC:
                 acts.append(("login", i, C.CKU_USER))
-                if not any(s[1] == t and not s[2] for s in m.sess):
-                    acts.append(("login", i, C.CKU_SO))
+                # (also while a read-only session exists: the library must refuse that; if it does not, the model follows the library and the probe
+                # matrix judges what the read-only session can then do to token objects)
+                acts.append(("login", i, C.CKU_SO))
             else:
                 acts.append(("logout", i))
         # calls that handle PINs but must NOT change who is logged in (the model state stays the same; the probe matrix runs after them like after every call)
